@@ -534,7 +534,11 @@ def oracle(g, tmp, tag='o'):
     except Exception as e:
         bad('reread-raises:' + type(e).__name__, 'reading back the written geometry raises %s: %s' % (type(e).__name__, str(e)[:80]))
         return V, info
-    with quiet(): g2.write(f2)
+    try:
+        with quiet(): g2.write(f2)
+    except Exception as e:
+        bad('second-write-raises:' + type(e).__name__, 'writing the re-read geometry raises %s: %s' % (type(e).__name__, str(e)[:80]))
+        return V, info
     t2 = open(f2).read()
     centre_known = False
 
@@ -889,7 +893,10 @@ def run(ctx, only_oracle=False, n=None, seed_shift=0):
         for f in (SHIPPED if not ctx.quick else ['g1', 'g3', 'g5', 'g6', 'g7']):
             p = core.REPO / 'tests' / 'mulgrid' / (f + '.dat')
             text = open(p).read()
-            with quiet(): R = dump_real(m.mulgrid(str(p)))
+            try:
+                with quiet(): R = dump_real(m.mulgrid(str(p)))
+            except Exception as e:
+                R = 'exc ' + type(e).__name__
             reqs.append('read ' + text.encode('latin-1').hex())
             meta.append(('read', {'base': 'shipped-original', 'file': f}, R, False))
 
@@ -976,6 +983,7 @@ def replay(ctx, payload):
     g = build(c['recipe'])
     V, info = oracle(g, ctx.tmp, 'r')
     key = payload.get('key')
-    hits = [v for v in V if key is None or v['key'] == key] or V
+    known = core.known_keys(ID)
+    hits = [v for v in V if v['key'] == key] or [v for v in V if v['key'] not in known]
     txt = 'recipe %s\n' % json.dumps(c['recipe'])[:400] + ('\n'.join('  ' + v['key'] + ': ' + v['what'] for v in V) or '  property holds on this geometry')
     return bool(hits), txt
